@@ -100,5 +100,14 @@ CLAIMED = {
     note="NOT decided: programs in which run_all or clean_up pops a task from the timed heap while another is queued (F0F1R, F0RR, ...): symbolic "
          "execution did not finish in 100 s; the heap ordering itself is C06. Only the listed scripts are claimed.",
     technique="CBMC bounded symbolic execution of task_scheduler.c (+ priority_queue.c, linked_list.inl) on scripted programs with ghost bookkeeping"),
+ "C14": dict(
+    text="Truncation clause of the formatter: aws_format_standard_log_line into a fixed-size buffer of 2..16 (quick) / 2..40 bytes, with every "
+         "snprintf/vsnprintf result length (0..size+3, or failure), every produced character and the timestamp length symbolic -- i.e. every "
+         "possible truncation point of every piece: all stores stay inside the buffer, amount_written <= total_length, the line ends in a "
+         "newline, contains no NUL and exactly one newline, also when it had to be cut.",
+    note="libc formatting replaced by a C99-contract stub (part of the claim). NOT decided: the level gate, exactly-once delivery and the "
+         "foreground/background channels (log_channel.c needs thread interleavings CBMC cannot explore for pointer-sharing threads, and the "
+         "sequentialised harness was not built in this round). A genuine defect (cut lines ended in NULs, no newline) was found and fixed.",
+    technique="CBMC bounded symbolic execution of log_formatter.c with contract stubs for libc formatting; all truncation points as solver variables"),
 }
 NOT_APPLICABLE = {p: PENDING for p in ["C%02d" % i for i in range(1, 21)]}
